@@ -9,6 +9,7 @@ import (
 	"sort"
 	"strconv"
 	"strings"
+	"time"
 
 	"golang.org/x/tools/go/ssa"
 )
@@ -575,7 +576,7 @@ func returnedOnlyWhenNonNil(v ssa.Value) string {
 // one-byte literal in its decimal and hexadecimal spellings (an analysis of a constant of the program: the
 // codec is not run).
 func RuleK16(r *Report, c *Codec) {
-	r.Rule("K16", "the codec's value-tag pattern matches every one-byte constant written in decimal (0..255) or hexadecimal (0x00..0xff), capturing exactly the literal", 1)
+	r.Rule("K16", "the codec's value-tag pattern matches every one-byte constant written in decimal (0..255) or hexadecimal (0x00..0xff, either case of prefix and digits), capturing exactly the literal", 1)
 	re, err := regexp.Compile(c.L.ReValSrc)
 	if err != nil || c.L.ReValSrc == "" {
 		r.Bad("K16", "codec:value-pattern", "", "the value-tag pattern is not a constant regular expression")
@@ -584,7 +585,7 @@ func RuleK16(r *Report, c *Codec) {
 	bad := ""
 	n := 0
 	for v := 0; v <= 255; v++ {
-		for _, lit := range []string{fmt.Sprintf("%d", v), fmt.Sprintf("0x%02x", v), fmt.Sprintf("0x%02X", v), fmt.Sprintf("0x%x", v)} {
+		for _, lit := range []string{fmt.Sprintf("%d", v), fmt.Sprintf("0x%02x", v), fmt.Sprintf("0x%02X", v), fmt.Sprintf("0x%x", v), fmt.Sprintf("0X%02x", v), fmt.Sprintf("0X%X", v)} {
 			for _, tag := range []string{"value:" + lit, "offset:8, value:" + lit} {
 				n++
 				m := re.FindStringSubmatch(tag)
@@ -819,6 +820,196 @@ func RuleK3(r *Report, c *Codec) {
 		}
 	}
 	r.Check(okAll && n >= 3, "K3", "codec.unmarshal:bool", c.P.Pos(c.U.Fn.Pos()), "1->true 0->false other->error", detail+fmt.Sprintf(" (%d decision regions)", n))
+}
+
+// HC1: the HH:mm constructor keeps what it is given. 24:00 (end of day) is a value of the domain; a constructor that
+// normalises its arguments folds it onto 00:00 before any encoder sees it.
+func RuleHC1(r *Report, p *Program) {
+	r.Rule("HC1", "NewHHmm(h, m) yields exactly the hours and minutes it is given (no normalisation: 24:00 stays 24:00)", 1)
+	fn := p.Func("types", "NewHHmm")
+	if fn == nil || len(fn.Params) != 2 {
+		return // no such constructor: nothing to decide
+	}
+	bad := ""
+	n := 0
+	for _, pa := range walkSimple(p, fn, []string{"hours", "minutes"}, typesHelpers(p)) {
+		if pa.Outcome != "return" || len(pa.Results) == 0 {
+			bad = "a path of the constructor ends in " + pa.Outcome
+			continue
+		}
+		n++
+		m := map[string]*Term{}
+		flatten("r", pa.Results[0], m, true)
+		got := []string{}
+		for _, v := range m {
+			for v != nil && v.Op == "conv" && len(v.Args) == 1 {
+				v = v.Args[0]
+			}
+			got = append(got, v.String())
+		}
+		sort.Strings(got)
+		if strings.Join(got, ",") != "hours,minutes" {
+			bad = "the constructor yields {" + cut(strings.Join(got, ", "), 120) + "} under [" + cut(pa.State.Describe(), 120) + "], not exactly its arguments"
+		}
+	}
+	r.Check(bad == "" && n > 0, "HC1", "types.NewHHmm", p.Pos(fn.Pos()), fmt.Sprintf("%d paths return the arguments unchanged", n), bad)
+}
+
+// K23: no value-dependent substitution in the built-in kinds: what the decoder sets is computed from the field's
+// bytes and what the encoder writes is computed from the field's value, on every successful path.
+func RuleK23(r *Report, c *Codec) {
+	r.Rule("K23", "for the built-in kinds (integers, addresses, MAC) every successful decode sets the field to a value computed from the field's bytes, and every successful encode writes bytes computed from the field's value: no constant is substituted for particular values", 10)
+	mentions := func(t *Term, pred func(x *Term) bool) bool {
+		found := false
+		visitTerm(t, map[*Term]bool{}, func(x *Term) {
+			if pred(x) {
+				found = true
+			}
+		})
+		return found
+	}
+	for _, k := range builtinKinds(c) {
+		if k == "bool" {
+			continue // K3: the two constants are the decoding
+		}
+		// decoder
+		bad := ""
+		n := 0
+		fromBuf := func(x *Term) bool {
+			return (x.Op == "index" || x.Op == "slice") && len(x.Args) > 0 && x.Args[0] != nil && x.Args[0].String() == c.U.Buf
+		}
+		for _, cp := range c.U.Paths {
+			if cp.Kind != k || cp.ErrNil != 1 || cp.Path.Outcome != "return" {
+				continue
+			}
+			sets := 0
+			for _, e := range cp.Calls {
+				if !strings.HasPrefix(e.Name, "(reflect.Value).Set") || len(e.Args) != 2 {
+					continue
+				}
+				sets++
+				if !mentions(e.Args[1], fromBuf) {
+					bad = fmt.Sprintf("%s at %s sets the field to %s, which is not computed from the message bytes", e.Name, c.P.Pos(e.Pos), cut(e.Args[1].String(), 80))
+				}
+			}
+			if sets > 0 {
+				n++
+			}
+		}
+		if n > 0 || bad != "" {
+			r.Check(bad == "", "K23", "codec.unmarshal:"+k, c.P.Pos(c.U.Fn.Pos()), fmt.Sprintf("%d successful paths set a value computed from the bytes", n), bad)
+		}
+		// encoder
+		bad = ""
+		n = 0
+		fromField := func(x *Term) bool { return x.Op == "param" && x.Name != c.M.Buf }
+		for _, cp := range c.M.Paths {
+			if cp.Kind != k || cp.ErrNil != 1 || cp.Path.Outcome != "return" {
+				continue
+			}
+			writes := 0
+			for _, e := range cp.Path.Events {
+				var val *Term
+				switch {
+				case e.Kind == "store" && len(e.Args) == 2 && strings.Contains(e.Args[0].String(), c.M.Buf+"["):
+					val = e.Args[1]
+				case e.Kind == "copy" && len(e.Args) == 2 && strings.Contains(e.Args[0].String(), c.M.Buf+"["):
+					val = e.Args[1]
+				default:
+					continue
+				}
+				writes++
+				if !mentions(val, fromField) {
+					bad = fmt.Sprintf("the bytes written at %s are %s, which is not computed from the field's value", c.P.Pos(e.Pos), cut(val.String(), 80))
+				}
+			}
+			if writes > 0 {
+				n++
+			}
+		}
+		if n > 0 || bad != "" {
+			r.Check(bad == "", "K23", "codec.marshal:"+k, c.P.Pos(c.M.Fn.Pos()), fmt.Sprintf("%d successful paths write bytes computed from the value", n), bad)
+		}
+	}
+	// ... and the integer and raw kinds of package types (serial number, PIN, version, MAC): the kinds written in BCD
+	// have their 'no value' and out-of-domain tables (K9, K10)
+	isParam := func(name string) func(x *Term) bool {
+		return func(x *Term) bool { return x.Op == "param" && x.Name == name }
+	}
+	for _, kf := range c.Kinds {
+		if _, known := c.KS.Signatures[kf.Sig]; !known || strings.HasPrefix(kf.Sig, "bcd:") {
+			continue
+		}
+		if kf.UnmarshalFn != nil {
+			bad := ""
+			n := 0
+			for _, pa := range kf.UPaths {
+				if pa.Outcome != "return" || len(pa.Results) != 2 || errNilness(pa, pa.Results[1]) != 1 {
+					continue
+				}
+				n++
+				dep := mentions(pa.Results[0], isParam("b"))
+				for _, e := range pa.Events {
+					if e.Kind == "store" && len(e.Args) == 2 && mentions(e.Args[1], isParam("b")) {
+						dep = true
+					}
+				}
+				for _, cell := range pa.Cells {
+					if cell.Val != nil && mentions(cell.Val, isParam("b")) && mentions(pa.Results[0], func(x *Term) bool { return x.Cell == cell }) {
+						dep = true
+					}
+				}
+				if !dep {
+					bad = "a successful path of the decoder yields " + cut(termDeepVal(pa.Results[0]), 60) + ", which is not computed from the bytes, under [" + cut(pa.State.Describe(), 160) + "]"
+				}
+			}
+			if n > 0 {
+				r.Check(bad == "", "K23", kf.Name+":decoder", c.P.Pos(kf.UnmarshalFn.Pos()), fmt.Sprintf("%d successful paths yield a value computed from the bytes", n), bad)
+			}
+		}
+		if kf.MarshalFn != nil {
+			bad := ""
+			n := 0
+			for _, pa := range kf.MPaths {
+				if pa.Outcome != "return" || len(pa.Results) != 2 || errNilness(pa, pa.Results[1]) != 1 {
+					continue
+				}
+				n++
+				dep := mentions(pa.Results[0], isParam("v"))
+				for _, cell := range pa.Cells {
+					if cell.Val != nil && mentions(cell.Val, isParam("v")) && mentions(pa.Results[0], func(x *Term) bool { return x.Cell == cell }) {
+						dep = true
+					}
+				}
+				// written by a callee that is handed the buffer and the value (binary.LittleEndian.PutUint32(bytes, uint32(v)))
+				if res := pa.Results[0]; !dep && res.Cell != nil {
+					for _, e := range pa.Events {
+						if e.Kind != "call" && e.Kind != "copy" {
+							continue
+						}
+						buf, val := false, false
+						for _, a := range e.Args {
+							if a != nil && mentions(a, func(x *Term) bool { return x.Cell == res.Cell }) {
+								buf = true
+							}
+							if a != nil && mentions(a, isParam("v")) {
+								val = true
+							}
+						}
+						if buf && val {
+							dep = true
+						}
+					}
+				}
+				if !dep {
+					bad = "a successful path of the encoder emits " + cut(termDeepVal(pa.Results[0]), 60) + ", which is not computed from the value, under [" + cut(pa.State.Describe(), 160) + "]"
+				}
+			}
+			if n > 0 {
+				r.Check(bad == "", "K23", kf.Name+":encoder", c.P.Pos(kf.MarshalFn.Pos()), fmt.Sprintf("%d successful paths emit bytes computed from the value", n), bad)
+			}
+		}
+	}
 }
 
 // K4 no aliasing of the input buffer
@@ -1234,8 +1425,21 @@ func RuleK8(r *Report, c *Codec) {
 		return
 	}
 	w := NewWalker(c.P)
+	// an exported function between Marshal and the field walk (MarshalInto(m, buffer), which Marshal hands its
+	// fresh buffer) is part of Marshal; other exported functions stay visible as events
+	delegate := func(f *ssa.Function) bool {
+		if f == fn {
+			return false
+		}
+		for _, g := range staticCallees(f) {
+			if isFieldWalker(g) {
+				return true
+			}
+		}
+		return false
+	}
 	w.Inline = inlineHelpers([]*ssa.Package{c.P.SSAPkg(codecRel)}, func(f *ssa.Function) bool {
-		return isFieldWalker(f) || (f.Object() != nil && f.Object().Exported())
+		return isFieldWalker(f) || (f.Object() != nil && f.Object().Exported() && !delegate(f))
 	})
 	paths := w.Walk(fn, []*Term{{Op: "param", Name: "m", Typ: fn.Params[0].Type()}}, nil)
 	ok := true
@@ -1417,6 +1621,22 @@ func RuleK9(r *Report, c *Codec) {
 		}
 		r.Check(img != "" && found, "K9", kf.Name, c.P.Pos(kf.UnmarshalFn.Pos()), "zero image "+img+" recognised",
 			fmt.Sprintf("the zero value is encoded as BCD %s but the decoder recognises only %v as 'no value': it comes back as a non-zero instant outside UTC", img, kf.DecZeroSet))
+		// ... and nothing else the decoder maps to 'no value' is the encoding of a value of the domain: an image whose
+		// digits the kind's own layout reads as an existing calendar date (time) would not survive decode(encode(v))
+		layout := strings.TrimPrefix(kf.Sig, "bcd:")
+		if layout == kf.Sig || strings.Contains(layout, "%") {
+			continue
+		}
+		for _, z := range kf.DecZeroSet {
+			d := strings.TrimPrefix(strings.TrimPrefix(z, "digits:"), "bytes:")
+			// (the digits of the zero instant itself, 0001-01-01 00:00:00, are the zero value whichever way it is written)
+			if d == img || d == (time.Time{}).Format(layout) || len(d) != len(layout) || strings.Trim(d, "0123456789") != "" {
+				continue
+			}
+			_, err := time.Parse(layout, d)
+			r.Check(err != nil, "K9", kf.Name+":no-value "+d, c.P.Pos(kf.UnmarshalFn.Pos()), "not a value of the domain ("+layout+")",
+				fmt.Sprintf("the decoder maps the image %s to 'no value', but it is the encoding of an existing value of the domain (layout %s): that value does not survive decode(encode(v))", d, layout))
+		}
 	}
 }
 
